@@ -110,6 +110,9 @@ impl<V: Vary> Iterator for ScanlineIter<V> {
         // pixel, otherwise it's the last covered pixel and the next one is
         // the actual one-past-the-end pixel.
         let (x0, x1) = (round_up_to_half(xl), round_up_to_half(xr));
+        // Pixel coordinates are unsigned: a span partly off the left side
+        // of the pixel grid begins at the first column
+        let (x0, x1) = (x0.max(0.5), x1.max(0.5));
 
         // Adjust v0 to match the rounded x0. The x coordinate of v0 itself
         // is accumulated and drifts, unlike the values it carries; measure
@@ -241,7 +244,9 @@ pub fn scan<V: Vary>(
     //   +-/---------+           +-----/-----+           +--/--------+
     //    p.x<0.5                    p.x>0.5              p.x<0.5
     //
-    let y0_rounded = round_up_to_half(y0);
+    // Row numbers are unsigned as well: a polygon partly above the pixel
+    // grid begins at the first row
+    let y0_rounded = round_up_to_half(y0).max(0.5);
     let y1_rounded = round_up_to_half(y1);
 
     let y_tweak = y0_rounded - y0;
